@@ -209,4 +209,143 @@ theorem applyOp_iter_target_anypref_sound (σ : Leaves) (st : Store) (fuel : Nat
           · simp only [hrq, Bool.false_eq_true, if_false] at h
             exact finish r1 _ res rfl hk1 B.wf B.truthful (B.pend_wf rfl) p1 p2 B.engine h
 
+/-- **`apply` on an iteration-engine target with a preferred engine of EITHER family, `transfer=True` without
+back-tracking** (and, as before, back-tracking without transfer): the target is transferred to the preferred engine -
+into a database: `conform(Transfer(target))` - and the operation is applied there by that engine's own `apply`.
+Generalises `applyOp_iter_target_anypref_sound`: back-tracking may insert the operation below a
+transfer that leads into a SQL engine, where the SQL engine's own `apply` takes over. -/
+theorem applyOp_iter_target_transfer_sound (σ : Leaves) (st : Store) (fuel : Nat) (o : UOp) (t : Rel) (opts : Opts)
+    (res : Res) (hkt : t.engine.kind = .iter) (hwf : t.WF) (htr : t.Truthful σ)
+    (hnd : o.isProj = true → t.spineNoDedup) (hpo : ∀ p, opts.pref = some p → t.prefTargetsGood NodeInv.triv σ p)
+    (htf : opts.transfer = true → opts.backtrack = false ∧ ∀ p, opts.pref = some p → transferSimplify p t = none)
+    (h : applyOp st (fuel+1) (.u o) t opts = .ok res) : ApplyOK σ o t (res.get t) opts := by
+  rw [applyOp_eq_spec] at h
+  unfold applyOpSpec at h
+  cases hb : o.beginApply t opts.pref with
+  | error e => simp [hb] at h
+  | ok v =>
+    obtain ⟨o', pref⟩ := v
+    simp only [hb] at h
+    obtain ⟨hcases, hpref⟩ := beginApply_cases' o t opts.pref o' pref hb
+    have ho'wf : o'.wfOn t.columns = true := by
+      rcases hcases with ⟨h1, h2⟩ | ⟨h1, _⟩
+      · rw [h1]; exact h2
+      · rw [h1]; rfl
+    have ho'nd : o'.isProj = true → t.spineNoDedup := by
+      intro hp
+      rcases hcases with ⟨h1, _⟩ | ⟨h1, _⟩
+      · rw [h1] at hp; exact hnd hp
+      · rw [h1] at hp; simp [UOp.isProj] at hp
+    apply applyOK_of_begin σ o o' t _ opts hwf htr hcases
+    have finish : ∀ (base : Res) (x : Rel) (r : Res), base.get t = x → x.engine.kind = .iter → x.WF → x.Truthful σ →
+        o'.wfOn x.columns = true →
+        o'.sem (o'.appliedColumns x.columns) (sem σ x) = o'.sem (o'.appliedColumns t.columns) (sem σ t) →
+        (∀ c, c ∈ o'.appliedColumns x.columns ↔ c ∈ o'.appliedColumns t.columns) →
+        x.engine = t.engine →
+        (match appendUnary st fuel (.u o') x with
+          | .error e => (.error e : Except Err Res)
+          | .ok .same => .ok base
+          | .ok (.new y) => .ok (.new y)) = .ok r → ApplyOK σ o' t (r.get t) opts := by
+      intro base x r hbx hxk hxwf hxtr hxop hxsem hxcols hxeng hr
+      cases ha : appendUnary st fuel (.u o') x with
+      | error e => simp [ha] at hr
+      | ok ra =>
+        have hfa := appendUnary_iter st fuel o' x ra hxk ha
+        have F := finishApply_sound σ x o' hxwf hxtr hxop ra hfa
+        have hget : r.get t = ra.get x := by
+          cases ra with
+          | same => simp only [ha] at hr; injection hr with hr; subst hr; simpa [Res.get] using hbx
+          | new y => simp only [ha] at hr; injection hr with hr; subst hr; rfl
+        rw [hget]
+        exact ⟨by rw [F.sem_eq]; exact hxsem, fun c => (F.cols c).trans (hxcols c), F.wf, F.truthful,
+          Or.inl (by rw [F.engine]; exact hxeng)⟩
+    by_cases he : (pref == t.engine) = true
+    · simp only [he, if_true] at h
+      exact finish .same t res rfl hkt hwf htr ho'wf rfl (fun _ => Iff.rfl) rfl h
+    · simp only [he, Bool.false_eq_true, if_false] at h
+      have hpo' : t.prefTargetsGood NodeInv.triv σ pref := by
+        rcases hpref with h1 | h1
+        · exact absurd (by simp [h1]) he
+        · exact hpo pref h1
+      have hbt : ∀ (r1 : Res) (d : Bool),
+          (if opts.backtrack = true then backtrack st fuel (.u o') t pref else .ok (.same, false)) = .ok (r1, d) →
+          BTok σ o' t (r1.get t) d := by
+        intro r1 d hr
+        by_cases hbk : opts.backtrack = true
+        · simp only [hbk, if_true] at hr
+          exact backtrack_sound σ st pref fuel o' t r1 d hwf htr ho'wf ho'nd hpo' hr
+        · simp only [hbk, Bool.false_eq_true, if_false] at hr
+          injection hr with hr; injection hr with h1 h2; subst h1; subst h2
+          exact BTok.unchanged σ o' t hwf htr ho'wf
+      cases hbtv : (if opts.backtrack = true then backtrack st fuel (.u o') t pref else .ok (.same, false)) with
+      | error e => simp [hbtv] at h
+      | ok v1 =>
+        obtain ⟨r1, d⟩ := v1
+        have B := hbt r1 d hbtv
+        simp only [hbtv] at h
+        cases d with
+        | true =>
+          simp only at h
+          injection h with h; subst h
+          obtain ⟨e1, e2⟩ := B.done_sound rfl
+          exact ⟨e1, e2, B.wf, B.truthful, Or.inl B.engine⟩
+        | false =>
+          obtain ⟨p1, p2⟩ := B.pend_sound rfl
+          have hk1 : (r1.get t).engine.kind = .iter := by rw [B.engine]; exact hkt
+          by_cases htrf : opts.transfer = true
+          · obtain ⟨hnb, hsimp⟩ := htf htrf
+            have hpo : opts.pref = some pref := by
+              rcases hpref with h1 | h1
+              · exact absurd (by simp [h1]) he
+              · exact h1
+            -- no back-tracking: the tree handed to the transfer is the target itself
+            have hr1 : r1 = .same := by
+              simp only [hnb, Bool.false_eq_true, if_false] at hbtv
+              injection hbtv with hbtv; injection hbtv with h1 _; exact h1.symm
+            subst hr1
+            simp only [htrf, if_true, Res.get] at h
+            cases htt : transferTo st fuel pref t with
+            | error e => simp [htt] at h
+            | ok r2 =>
+              simp only [htt] at h
+              obtain ⟨t1, t2, t3, t4, t5, _, t7⟩ :=
+                transferTo_sql_sound σ st fuel pref t r2 hwf htr (fun hq => by rw [hkt] at hq; cases hq)
+                  (hsimp pref hpo) htt
+              have hne : t.engine ≠ pref := fun hq => he (by simp [hq])
+              have hx : ∀ (base : Res), base.get t = r2.get t →
+                  (match appendUnary st fuel (.u o') (r2.get t) with
+                    | .error e => (.error e : Except Err Res)
+                    | .ok .same => .ok base
+                    | .ok (.new y) => .ok (.new y)) = .ok res → ApplyOK σ o' t (res.get t) opts := by
+                intro base hbase hr
+                cases ha : appendUnary st fuel (.u o') (r2.get t) with
+                | error e => simp [ha] at hr
+                | ok ra =>
+                  have hget : res.get t = ra.get (r2.get t) := by
+                    cases ra with
+                    | same => simp only [ha] at hr; injection hr with hr; subst hr; simpa [Res.get] using hbase
+                    | new y => simp only [ha] at hr; injection hr with hr; subst hr; rfl
+                  have hxop : o'.wfOn (r2.get t).columns = true := by rw [wfOn_congr o' _ _ t2]; exact ho'wf
+                  have F : FinishOK σ o' (r2.get t) (ra.get (r2.get t)) := by
+                    cases hxk : (r2.get t).engine.kind with
+                    | iter =>
+                      exact finishApply_sound σ _ o' t3 t4 hxop ra (appendUnary_iter st fuel o' _ ra hxk ha)
+                    | sql =>
+                      exact ((treeBuild_sound σ st fuel).appendUnary o' _ ra
+                        (t7 (by rw [← t5 hne]; exact hxk)) hxop ha).2.1
+                  rw [hget]
+                  refine ⟨?_, fun c => (F.cols c).trans (UOp.appliedColumns_congr o' _ _ t2 c), F.wf, F.truthful, ?_⟩
+                  · rw [F.sem_eq, t1]
+                    exact UOp.sem_congr o' _ _ (UOp.appliedColumns_congr o' _ _ t2) _
+                  · right
+                    exact ⟨htrf, by rw [F.engine, t5 hne]; exact hpo⟩
+              cases r2 with
+              | same => exact hx .same rfl h
+              | new y => exact hx (.new y) rfl h
+          · simp only [htrf, Bool.false_eq_true, if_false] at h
+            by_cases hrq : opts.require = true
+            · simp [hrq] at h
+            · simp only [hrq, Bool.false_eq_true, if_false] at h
+              exact finish r1 _ res rfl hk1 B.wf B.truthful (B.pend_wf rfl) p1 p2 B.engine h
+
 end DafRel
